@@ -8,6 +8,11 @@ Layered: `authenticate` / `HandleHandshake` (outcome `AOut`), `registryUpdate` /
 namespace Tunnox.C03
 open Gen
 
+/-- T1b tie: the predicate translated from `ClientConfig.IsExpired` is the property's notion of "expired" -/
+theorem isExpired_eq (now : Nat) (c : ClientConfigT) : models.ClientConfig.IsExpired now c = expiredAt now c := by
+  cases h : c.ExpiresAt <;>
+    simp [models.ClientConfig.IsExpired, expiredAt, h, PredPrelude.timeAfter, PredPrelude.TimeLike.toTime]
+
 def pairOf : Option Ctl → Bool × Option Nat
   | none => (false, none)
   | some o => (o.auth, o.id)
@@ -107,7 +112,7 @@ theorem authenticate_spec (s : Srv) (c : Nat) (req : Req) :
                   · intro c' hc; simp [setCtl, recordSuccess, upd_other _ _ _ _ hc]
                   · refine AOut.ok k n rfl rfl rfl hf hkk hlt.1 ?_ hv.2 hn (by simp [setCtl, recordSuccess])
                     simp only [flagsOK, Bool.and_eq_true, Bool.not_eq_true']
-                    exact ⟨⟨by simpa using hexp, hlt.2⟩, by simp only [beq_iff_eq]; exact hv.1⟩
+                    exact ⟨⟨by rw [← isExpired_eq]; simpa using hexp, hlt.2⟩, by simp only [beq_iff_eq]; exact hv.1⟩
                 · exact absurd hk (by simp)
 
 theorem SameFrame.trans {s t u : Srv} (h1 : SameFrame s t) (h2 : SameFrame t u) : SameFrame s u := by
@@ -811,6 +816,9 @@ theorem stepCore_spec (s : Srv) (e : Event) : StepSpec s e (stepCore s e).1 (ste
   | wl ip => exact StepSpec.of_same_nb fr rfl rfl rfl rfl (Or.inl rfl) rfl rfl (fun _ => by simp) rfl
   | unwl ip => exact StepSpec.of_same_nb fr rfl rfl rfl rfl (Or.inl rfl) rfl rfl (fun _ => by simp) rfl
   | unexp k => exact StepSpec.of_same_nb fr rfl rfl rfl rfl (Or.inl rfl) rfl rfl (fun _ => by simp) rfl
+  | claim k => exact StepSpec.of_same_nb fr rfl rfl rfl rfl (Or.inl rfl) rfl rfl (fun _ => by simp) rfl
+  | bind k => exact StepSpec.of_same_nb fr rfl rfl rfl rfl (Or.inl rfl) rfl rfl (fun _ => by simp) rfl
+  | ext k => exact StepSpec.of_same_nb fr rfl rfl rfl rfl (Or.inl rfl) rfl rfl (fun _ => by simp) rfl
   | issue b => exact StepSpec.of_same_nb fr rfl rfl rfl rfl (Or.inl rfl) rfl rfl (fun _ => by simp) rfl
   | del k => exact StepSpec.of_same_nb fr rfl rfl rfl rfl (Or.inl rfl) rfl rfl (fun _ => by simp) rfl
   | strip k st => exact StepSpec.of_same_nb fr rfl rfl rfl rfl (Or.inl rfl) rfl rfl (fun _ => by simp) rfl
@@ -883,6 +891,9 @@ theorem track_cases (g : Env) (now nc : Nat) (e : Event) (r : RespObs) :
   | refill ip => exact Or.inr (Or.inr ⟨rfl, rfl, rfl, rfl⟩)
   | exp k => right; right; simp only [Env.track]; split <;> exact ⟨rfl, rfl, rfl, rfl⟩
   | unexp k => right; right; simp only [Env.track]; split <;> exact ⟨rfl, rfl, rfl, rfl⟩
+  | claim k => right; right; simp only [Env.track]; split <;> exact ⟨rfl, rfl, rfl, rfl⟩
+  | bind k => right; right; simp only [Env.track]; split <;> exact ⟨rfl, rfl, rfl, rfl⟩
+  | ext k => right; right; simp only [Env.track]; split <;> exact ⟨rfl, rfl, rfl, rfl⟩
   | wl ip => exact Or.inr (Or.inr ⟨rfl, rfl, rfl, rfl⟩)
   | unwl ip => exact Or.inr (Or.inr ⟨rfl, rfl, rfl, rfl⟩)
   | issue b => exact Or.inr (Or.inr ⟨rfl, rfl, rfl, rfl⟩)
@@ -941,6 +952,9 @@ theorem track_xban (g : Env) (now nc : Nat) (e : Event) (r : RespObs) (ip : Nat)
   | issue b => exact Or.inr ⟨h, by simp, by simp⟩
   | exp k => right; refine ⟨?_, by simp, by simp⟩; simp only [Env.track] at h; split at h <;> exact h
   | unexp k => right; refine ⟨?_, by simp, by simp⟩; simp only [Env.track] at h; split at h <;> exact h
+  | claim k => right; refine ⟨?_, by simp, by simp⟩; simp only [Env.track] at h; split at h <;> exact h
+  | bind k => right; refine ⟨?_, by simp, by simp⟩; simp only [Env.track] at h; split at h <;> exact h
+  | ext k => right; refine ⟨?_, by simp, by simp⟩; simp only [Env.track] at h; split at h <;> exact h
   | del k => right; refine ⟨?_, by simp, by simp⟩; simp only [Env.track] at h; split at h <;> exact h
   | strip k st => right; refine ⟨?_, by simp, by simp⟩; simp only [Env.track] at h; split at h <;> exact h
 
@@ -975,6 +989,9 @@ theorem track_xperm (g : Env) (now nc : Nat) (e : Event) (r : RespObs) (ip : Nat
   | issue b => exact Or.inr ⟨h, by simp⟩
   | exp k => right; refine ⟨?_, by simp⟩; simp only [Env.track] at h; split at h <;> exact h
   | unexp k => right; refine ⟨?_, by simp⟩; simp only [Env.track] at h; split at h <;> exact h
+  | claim k => right; refine ⟨?_, by simp⟩; simp only [Env.track] at h; split at h <;> exact h
+  | bind k => right; refine ⟨?_, by simp⟩; simp only [Env.track] at h; split at h <;> exact h
+  | ext k => right; refine ⟨?_, by simp⟩; simp only [Env.track] at h; split at h <;> exact h
   | del k => right; refine ⟨?_, by simp⟩; simp only [Env.track] at h; split at h <;> exact h
   | strip k st => right; refine ⟨?_, by simp⟩; simp only [Env.track] at h; split at h <;> exact h
 
@@ -1612,6 +1629,9 @@ theorem step_sound {s : Srv} (R : RegSound s) (e : Event) : RegSound (Tunnox.C03
     | wl ip => exact R
     | unwl ip => exact R
     | unexp k => exact R
+    | claim k => exact R
+    | bind k => exact R
+    | ext k => exact R
     | issue b => exact R
     | del k => exact R
     | strip k st => exact R
